@@ -114,6 +114,15 @@ def contains_expr(e, a, b, sepnames, helpers, depth=0):
                         and isinstance(x.args[0], (ast.List, ast.Tuple)) and \
                         {unparse(z) for z in x.args[0].elts} == {a, b} and unparse(y) == b:
                     return 'ok', 'commonpath([%s, %s]) == %s' % (a, b, b)
+                if isinstance(x, ast.Call) and unparse(x.func).endswith('commonprefix') and x.args \
+                        and unparse(y) == b:
+                    return 'prefix', ('os.path.commonprefix compares characters, not path '
+                                      'components: %s == %s is a plain string-prefix test, a sibling '
+                                      'directory sharing the name prefix passes it' % (short(x), b))
+                # a[:len(b)] == b
+                if isinstance(x, ast.Subscript) and isinstance(x.slice, ast.Slice) and \
+                        unparse(x.value) == a and unparse(y) == b:
+                    return 'prefix', '%s == %s is a plain string-prefix test' % (short(x), b)
         if isinstance(e.ops[0], ast.In) and unparse(r).endswith('.parents'):
             return 'ok', 'pathlib parents test'
     if isinstance(e, ast.Call):
